@@ -55,3 +55,44 @@ Definition rmodel_trace (pol : bool) (c : rcase) : option (list (Z * Z) * Z * Z)
   | Some r => Some (sink_trace (r_l r), closed_z (r_l r), r_conf r)
   | None => None
   end.
+
+(** ---- several connections under one history of operations (Model/MultiRun.v) *)
+From TP Require Import Model.MultiRun.
+
+Record mcase := mkMCase {
+  mc_chain : list (toxic * bool);
+  mc_links : list (Z * (list (Z * Z) * list Z));      (* per connection: instant it is established, source script, receiver delays *)
+  mc_ops : list (Z * opreq);
+  mc_horizon : Z;
+  mc_fuel : Z;
+  mo_links : list (list (Z * Z) * Z);                 (* observed per connection: sink writes, close time *)
+}.
+
+Definition mmodel_run (c : mcase) : option mrun :=
+  mrun_quiet (Z.to_nat (mc_fuel c)) (mc_horizon c)
+             (mrun_init (mc_chain c) (mc_ops c) (map (fun x => (fst x, (mk_src (fst (snd x)) 0, snd (snd x)))) (mc_links c))).
+
+Fixpoint links_verdict (k : Z) (ls : list rrun) (obs : list (list (Z * Z) * Z)) : Z :=
+  match ls, obs with
+  | [], [] => 0
+  | r :: ls', (w, cl) :: obs' =>
+    if is_stuck (r_ph r) then 7
+    else if negb (list_eqb zz_eqb (sink_trace (r_l r)) w) then 200 + k
+    else if negb (closed_z (r_l r) =? cl) then 300 + k
+    else links_verdict (k + 1) ls' obs'
+  | _, _ => 9
+  end.
+
+(** (verdict, choice points): 0 = every connection agrees; 1 = out of fuel; 200+k / 300+k = sink trace / close time of
+    connection k differs; 7 = not covered; 9 = number of connections differs *)
+Definition mverdict (c : mcase) : Z * Z :=
+  match mmodel_run c with
+  | None => (1, 0)
+  | Some m => (links_verdict 0 (m_links m) (mo_links c), fold_right (fun r a => r_conf r + a) 0 (m_links m))
+  end.
+
+Definition mmodel_trace (c : mcase) : option (list (list (Z * Z) * Z)) :=
+  match mmodel_run c with
+  | Some m => Some (map (fun r => (sink_trace (r_l r), closed_z (r_l r))) (m_links m))
+  | None => None
+  end.
